@@ -74,12 +74,15 @@ Print Assumptions band_consts.
 
 (* premise of crop_first_noninterference: every read of `image` in every function that receives
    (image, mask) is image[mask] / image[x & mask] / the whole image only when mask is None / a slice
-   handed down with the same slice of mask / metadata *)
+   handed down with the same slice of mask / metadata; and get_global_threshold, RUN on each of the seven method names,
+   calls exactly the method's own implementation with (image, mask, keywords filtered by its argument list) and raises
+   on an unknown name — whatever control flow expresses it (if/elif chain, scanned table, dict) *)
 Theorem access_crop_first :
   forallb (fun fa => forallb access_ok (snd fa)) threshold_access = true /\
   map fst threshold_access = expected_functions /\
-  forallb (fun d => mem_string d (map fst threshold_access)) threshold_dispatch = true /\
-  List.length threshold_dispatch = 7%nat.
+  forallb (fun d => mem_string (snd d) (map fst threshold_access)) threshold_dispatch = true /\
+  threshold_dispatch = expected_dispatch /\
+  threshold_dispatch_filters_kwargs = true /\ threshold_dispatch_unknown_raises = true.
 Proof. exact access_crop_first_lemma. Qed.
 Print Assumptions access_crop_first.
 
